@@ -1527,6 +1527,23 @@ def rule_map(ctx):
                     if isinstance(lp2, ast.For) and norm(lp2.iter) == 'range(P)':
                         inner.extend(c for c in ast.walk(lp2) if isinstance(c, ast.Call) and dotted_name(c.func) == fn)
         probs = []
+        if not inner and name in ('tril', 'triu'):
+            # the sibling identity  triu(x, k) = tril(x.T, -k).T  (and vice versa)
+            sib = 'tril' if name == 'triu' else 'triu'
+            rets = [n_ for n_ in walk_no_nested(fi.node) if isinstance(n_, ast.Return)]
+            if len(rets) == 1 and isinstance(rets[0].value, ast.Attribute) and rets[0].value.attr == 'T' and isinstance(rets[0].value.value, ast.Call):
+                c_ = rets[0].value.value
+                if isinstance(c_.func, ast.Attribute) and c_.func.attr == sib and c_.args and isinstance(c_.args[0], ast.Attribute) and c_.args[0].attr == 'T' \
+                        and norm(c_.args[0].value) == fi.value_params()[0]:
+                    karg = c_.args[1] if len(c_.args) > 1 else next((k_.value for k_ in c_.keywords if k_.arg == 'k'), None)
+                    kpar = fi.value_params()[1] if len(fi.value_params()) > 1 else 'k'
+                    if karg is not None and isinstance(karg, ast.UnaryOp) and isinstance(karg.op, ast.USub) and norm(karg.operand) == kpar:
+                        r.ok(construct=name + ':sibling', nontrivial=True, sample='UTPM.%s: `%s` (offset negated under transposition)' % (name, norm(rets[0])[:60]))
+                    else:
+                        r.bad(Finding('C13.map', _f(fi), name + ':sibling-offset', 'UTPM.%s is written as %s of the transpose with offset `%s`: the diagonal offset '
+                                                                                     'changes sign under transposition (`-%s` is needed), so every k != 0 selects the wrong diagonals'
+                                      % (name, sib, norm(karg) if karg is not None else 'default 0', kpar), fi.file, rets[0].lineno))
+                    continue
         if not inner:
             # not the slice-wise loop: a call on the whole coefficient array is decided by its axis arguments; anything else is not decided
             verdict = _whole_array_map(m, fi, name, fn, calls)
